@@ -215,3 +215,18 @@ PROPS = {
         "assumptions": COMMON_ASSUME + ["native TLS keys (pthread_key_t slots) are not counted as a resource: the statement lists memory, descriptors, mappings and IPC names"],
     },
 }
+
+
+# ---- evaluation rules brought up to date with the workloads added after the first build (DESIGN.md section 10, item 19)
+def _rep(pid, a, b):
+    r = PROPS[pid]["rule"]
+    assert a in r, (pid, a)
+    PROPS[pid]["rule"] = r.replace(a, b, 1)
+_rep("C01", "uncontended acquisitions;", "uncontended acquisitions; 1 run in 16 makes one native pthread_mutex_lock (and 1 in 16 one trylock) fail, which the library call must report as FALSE;")
+_rep("C05", "exit(code)) interleaved with ref/unref/join, plus 0-2 threads the library did not create,", "exit(code) or a plain return of NULL / a non-NULL pointer; TLS values replaced by new ones, by NULL or by themselves) interleaved with ref/unref/join, plus 0-2 threads the library did not create and (1 run in 4) a TLS key released while a thread still holds a value; native thread ids are recycled after join as glibc does,")
+_rep("C06", "value 0-3)/acquire/release/take_ownership/free on two names", "value 0-3, rarely up to INT_MAX)/acquire/release/take_ownership/free on two names drawn from a pool (short, one character apart, 70 characters with a long common prefix); 1 run in 2000 scans 500 salted names for key collisions;")
+_rep("C08", "of capacity S in {1,2,3,5,8,16,64} with 1-3 handles", "of capacity S in {1,2,3,5,8,16,64} (1 run in 8: 255-9000, across a page) with 1-4 handles, some opened while the queue holds data,")
+_rep("C09", "numbered datagrams of 4-2000 B, short receive buffers)", "numbered datagrams of 0-2000 B, short receive buffers, full source address compared)")
+_rep("C10", "timeouts from {0,1,50,1000,60000,negative},", "timeouts from {0,1,50,1000,60000,-5} and rarely {-1, 4294968, INT_MAX}, calls that fail on an open socket (listen / keep-alive / bind refused),")
+_rep("C18", "one (scenario, k, mode) triple: one of 17 allocating scenarios", "one (scenario, parameters, k, mode) point: one of 17 allocating scenarios, each parametrised by six drawn values (lengths, key sets, operation sequences, files, socket variant, thread count),")
+_rep("C19", "shm create + lock held by another task;", "shm create + lock held by another task + a second handle of the existing segment opened from another process (same object, bytes, size and lock; the segment survives that handle);")
